@@ -415,9 +415,9 @@ def random_histories(rng, n, maxlen, start_id):
 
 
 # ---- judging ----------------------------------------------------------------------------------------
-def judge(ctx, recs, what):
+def judge(ctx, recs, what, shard_size=5000):
     rejects = tracecheck.validate(ctx, "HistTrace.tla", [{"id": r["id"], "kind": "case", "c": r["c"], "obs": r["obs"]} for r in recs],
-                                  what=what)
+                                  what=what, shard_size=shard_size)
     byid = {r["id"]: r for r in recs}
     for rid, failing in rejects.items():
         r = byid[rid]
@@ -430,9 +430,9 @@ def judge(ctx, recs, what):
             ctx.violation("histogram|argument_modified", "histogram modified its data argument", {"kind": "lattice", "c": r["c"], "concrete": r.get("concrete", 0)})
 
 
-def judge_histories(ctx, recs, what):
+def judge_histories(ctx, recs, what, shard_size=5000):
     rejects = tracecheck.validate(ctx, "HistTrace.tla", [{"id": r["id"], "kind": "history", "h": r["h"], "steps": r["steps"]} for r in recs],
-                                  what=what)
+                                  what=what, shard_size=shard_size)
     byid = {r["id"]: r for r in recs}
     for rid, failing in rejects.items():
         r = byid[rid]
@@ -522,13 +522,13 @@ def run(ctx):
     rrecs = pmap(run_case, rc)
     for r in rrecs:
         ctx.count(r["c"])
-    judge(ctx, rrecs, "judge seeded larger cases (HistTrace)")
-    nhist = 300 if ctx.quick else 5000
-    rh = random_histories(random.Random(ctx.seed + 7919), nhist, maxlen, len(hrecs) + 1)
+    judge(ctx, rrecs, "judge seeded larger cases (HistTrace)", shard_size=1200)      # long arrays: ~50 ms per record
+    nhist, hmaxlen = (300, 60) if ctx.quick else (3000, 60)
+    rh = random_histories(random.Random(ctx.seed + 7919), nhist, hmaxlen, len(hrecs) + 1)
     rhrecs = pmap(run_history, rh)
     for r in rhrecs:
         ctx.count(r["h"])
-    judge_histories(ctx, rhrecs, "judge seeded longer histories (HistTrace)")
+    judge_histories(ctx, rhrecs, "judge seeded longer histories (HistTrace)", shard_size=600)
     # 4. engines agree bit-for-bit off the lattice (two implementation outputs; no oracle)
     noff = 2000 if ctx.quick else 40000
     bad = [b for b in pmap(engines_agree_offlattice, [(ctx.seed * 1000003 + k,) for k in range(noff)]) if b]
@@ -562,10 +562,10 @@ def run(ctx):
                 "a dyadic lattice the representation holds exactly and run through both engines with and without rev; every "
                 "history of %d calls (6 bin specifications x rev x 4 limit patterns, calc_stats) on ONE Binner object over every "
                 "array of length %s over %s (last call thinned 1:%d), each step judged and compared with a fresh object; plus %d seeded "
-                "arrays up to length %d and %d seeded histories of 2..5 calls; a case is distinct by its abstract record and "
+                "arrays up to length %d and %d seeded histories of 2..5 calls on arrays up to length %d; a case is distinct by its abstract record and "
                 "non-trivial always (each has >=1 datum)" %
                 (B["MaxLen"], len(B["Vals"]), sorted(B["BinSizes"]), sorted(B["NBinSet"]), sorted(B["LimVals"]),
-                 len(REPS) + len(SCALAR_REPS), B["HDepth"], sorted(B["HLens"]), sorted(B["HVals"]), B["HThin"], nrand, maxlen, nhist))
+                 len(REPS) + len(SCALAR_REPS), B["HDepth"], sorted(B["HLens"]), sorted(B["HVals"]), B["HThin"], nrand, maxlen, nhist, hmaxlen))
     ctx.exhaustive = True
     ctx.note(bounds={k: sorted(v) if isinstance(v, set) else v for k, v in B.items()}, offlattice_engine_pairs=noff,
              exported_cases=len(cases), exported_histories=len(hists), covering_design=design)
